@@ -160,7 +160,9 @@ macro_rules! c08_memmove {
 c08_memmove!(memmove_back_n18, 18, 0, 21);
 // @ob C08 quick memmove_fwd_n18 fns=memmove,copy_forward bound="n 0..=18, src inside (dest, dest+n): every overlap distance, dest offset 1..=8" timeout=1500 nocover=1
 c08_memmove!(memmove_fwd_n18, 18, 1, 21);
-// @ob C08 quick memmove_disjoint_n18 fns=memmove,copy_forward,copy_backward bound="n 0..=18, disjoint or identical ranges either side" timeout=1500 nocover=1
+// @ob C08 quick memmove_disjoint_n12 fns=memmove,copy_forward,copy_backward bound="n 0..=12, disjoint or identical ranges either side (the overlapping cases go to n 18)" timeout=1500 nocover=1
+c08_memmove!(memmove_disjoint_n12, 12, 2, 15);
+// @ob C08 thorough memmove_disjoint_n18 fns=memmove,copy_forward,copy_backward bound="n 0..=18, disjoint or identical ranges either side" timeout=3000 nocover=1
 c08_memmove!(memmove_disjoint_n18, 18, 2, 21);
 // @ob C08 thorough memmove_back_n26 fns=memmove,copy_backward bound="n 0..=26, backward overlap" timeout=3400 nocover=1
 c08_memmove!(memmove_back_n26, 26, 0, 29);
